@@ -16,7 +16,7 @@ use lattices::{Conflict, DomPair, Lattice, Max, Min, Pair, Point, VecUnion, With
 
 use crate::model::{M, NumKind, R, Sh, norm};
 
-pub trait Lat: Sized + Clone + Debug + 'static {
+pub trait Lat: Sized + Clone + 'static {
     /// Reads mutate the representation (union-find path compression through `Cell`): checks rebuild
     /// such values from their raw term before every use so that a case is self-contained.
     const INTERIOR: bool = false;
@@ -35,7 +35,7 @@ pub trait Lat: Sized + Clone + Debug + 'static {
 // ---------------------------------------------------------------------------------------------
 // set containers
 
-pub trait SetC: Sized + Clone + Debug + 'static {
+pub trait SetC: Sized + Clone + 'static {
     fn cname() -> String;
     fn from_elems(e: &[u8]) -> Option<Self>;
     fn elems(&self) -> Vec<u8>;
@@ -139,7 +139,7 @@ impl SetC for EmptySet<u8> {
 // ---------------------------------------------------------------------------------------------
 // map containers (key = u8)
 
-pub trait MapC: Sized + Clone + Debug + 'static {
+pub trait MapC: Sized + Clone + 'static {
     type V;
     fn cname() -> String;
     fn from_entries(e: Vec<(u8, Self::V)>) -> Option<Self>;
@@ -236,7 +236,7 @@ impl<V: Clone + Debug + 'static> MapC for EmptyMap<u8, V> {
         "EmptyMap".into()
     }
     fn from_entries(e: Vec<(u8, V)>) -> Option<Self> {
-        if e.is_empty() { Some(EmptyMap::default()) } else { None }
+        if e.is_empty() { Some(EmptyMap(std::marker::PhantomData, std::marker::PhantomData)) } else { None }
     }
     fn entries(&self) -> Vec<(u8, &V)> {
         vec![]
@@ -606,14 +606,14 @@ impl Lat for Point<u8, ()> {
 // #[derive(Lattice)] structs defined in the harness
 
 /// Generic, two named fields (the macro README's own example shape).
-#[derive(Clone, Debug, Lattice)]
+#[derive(Clone, Lattice)]
 pub struct D2<KeySet, Epoch> {
     pub keys: SetUnion<KeySet>,
     pub epoch: Max<Epoch>,
 }
 
 /// Concrete, three named fields.
-#[derive(Clone, Debug, Default, Lattice)]
+#[derive(Clone, Default, Lattice)]
 pub struct D3 {
     pub x: Max<u8>,
     pub y: SetUnion<HashSet<u8>>,
@@ -621,7 +621,7 @@ pub struct D3 {
 }
 
 /// Generic tuple struct, three unnamed fields.
-#[derive(Clone, Debug, Lattice)]
+#[derive(Clone, Lattice)]
 pub struct T3<A, B, C>(pub A, pub B, pub C);
 
 impl<S: SetC, T: Sc> Lat for D2<S, T> {
